@@ -126,6 +126,15 @@ func (p *Processor) processTxnData(d TxnData) {
 
 	h.Harvest.commandsProcessed++
 	h.App.LastActivity = time.Now()
+
+	// The flatbuffers accessors panic on corrupt offsets. Such a message is
+	// dropped here instead of taking the whole processor (and with it the
+	// data of every application) down.
+	defer func() {
+		if err := recover(); err != nil {
+			log.Errorf("dropping malformed transaction data for run id %s: %v", d.ID, err)
+		}
+	}()
 	d.Sample.AggregateInto(h.Harvest)
 }
 
